@@ -106,7 +106,9 @@ class XPathToken(Token[ta.XPathTokenType]):
         elif symbol == '#':
             return '%s#%s' % (self[0].source, self[1].source)
         elif symbol == '{' or symbol == 'Q{':
-            return '%s%s}%s' % (symbol, self[0].value, self[1].source)
+            return '%s%s}%s%s' % (symbol, self[0].value, self[1].source, self.occurrence)
+        elif symbol == '(name)' and self.occurrence:
+            return f'{self.value}{self.occurrence}'  # a type name with an occurrence indicator
         elif symbol == '=>':
             # The arguments of a named function are not part of its source (they are set by the evaluation)
             if isinstance(self[1], self.registry.function_token):
